@@ -651,7 +651,9 @@ class Interp:
         if old.unit is not None and v.unit is not None and not (old.unit == v.unit) and not (vp.is_const()):
             pass    # astropy converts on assignment; value semantics unchanged
         newp = old.poly + cond * (vp - old.poly)
-        setv(Arr(old.dims, newp, old.mask, old.unit))
+        newv = Arr(old.dims, newp, old.mask, old.unit)
+        setv(newv)
+        _replace_aliases(env, old, newv)      # an in-place store is seen through every view of the buffer
 
     # ------------------------------------------------------------------ expressions
     def expr(self, e, env, mod):
@@ -1196,6 +1198,8 @@ class Interp:
                 return Unk('field access %r' % w, e)
             return Unk('index form %r in %s' % (w, up(e)), e)
         dims += list(v.dims[ax:])
+        if tuple(dims) == v.dims and poly is v.poly and mask is v.mask:
+            return v         # x[:] / x[...] : a view of the same buffer (alias)
         return Arr(dims, poly, mask, v.unit)
 
     # ---- calls
@@ -1635,7 +1639,8 @@ class _Interp1d:
         qs = _strip_unit(q)
         extra = [C('%s=%s' % kv) for kv in self.opts]
         dims = tuple(self.y.dims[:-1]) + tuple(q.dims)
-        return Arr(dims, _linear_fn('lininterp', qs, lab, xs, self.y.poly, extra), unit=self.y.unit)
+        ys = _strip_unit(self.y) if self.y.unit is not None else self.y.poly
+        return Arr(dims, _linear_fn('lininterp', qs, lab, xs, ys, extra), unit=num(1))
 
 
 def _strip_unit(a):
@@ -1846,6 +1851,45 @@ def _is_arange(p):
         if c == 1 and len(m) == 1 and m[0][1] == 1 and m[0][0][0] == 'fn' and m[0][0][1] == 'arange':
             return m[0][0][2][1]
     return None
+
+
+def _replace_aliases(env, old, new):
+    seen = set()
+
+    def walk(v):
+        if id(v) in seen:
+            return
+        seen.add(id(v))
+        if isinstance(v, Obj):
+            for k, x in list(v.attrs.items()):
+                if x is old:
+                    v.attrs[k] = new
+                else:
+                    walk(x)
+        elif isinstance(v, dict):
+            for k, x in list(v.items()):
+                if x is old:
+                    v[k] = new
+                else:
+                    walk(x)
+        elif isinstance(v, list):
+            for i, x in enumerate(v):
+                if x is old:
+                    v[i] = new
+                else:
+                    walk(x)
+        elif isinstance(v, GenList):
+            if v.elem is old:
+                v.elem = new
+            else:
+                walk(v.elem)
+    for k, x in list(env.items()):
+        if k.startswith('__'):
+            continue
+        if x is old:
+            env[k] = new
+        else:
+            walk(x)
 
 
 def _element_at(v, label, k, _memo=None):
